@@ -36,6 +36,9 @@ type BindInput struct {
 	Decl     []string `json:"declared_at"`
 	Spelling string   `json:"spelling"`
 	Sites    []string `json:"reference_sites"`
+	// SubAlias: the submodule imports module b under the prefix c (and nothing under b), while its
+	// owner imports module c under c: prefixes are scoped per file
+	SubAlias bool `json:"submodule_calls_b_c,omitempty"`
 }
 
 // bindWorld builds the program: typedef t at the given scopes, a reference leaf at each given site.
@@ -69,6 +72,9 @@ func bindWorld(in BindInput) (*ir.World, map[string][]string) {
 	}
 	a := &ir.Mod{Name: "a", Includes: []string{"as"}, Imports: []string{"b", "c"}}
 	as := &ir.Mod{Name: "as", Owner: "a", Imports: []string{"b"}}
+	if in.SubAlias {
+		as = &ir.Mod{Name: "as", Owner: "a", Alias: map[string]string{"c": "b"}}
+	}
 	b := &ir.Mod{Name: "b", Includes: []string{"bs"}}
 	bs := &ir.Mod{Name: "bs", Owner: "b"}
 	c := &ir.Mod{Name: "c"} // imported but never defines t: a foreign prefix must not fall back to anything else
@@ -480,37 +486,45 @@ func run(c *core.Ctx) {
 					c.Outcome("excluded:t-declared-twice-in-one-module-namespace")
 					continue
 				}
-				// does every site resolve?
-				all := BindInput{Decl: decl, Spelling: sp, Sites: sites}
-				w, _ := bindWorld(all)
-				w.Build()
-				var progs []BindInput
-				if len(w.MustError) == 0 {
-					progs = []BindInput{all}
-				} else {
-					for _, s := range sites {
-						progs = append(progs, BindInput{Decl: decl, Spelling: sp, Sites: []string{s}})
+				for _, alias := range []bool{false, true} {
+					if alias && sp != "b:t" && sp != "c:t" {
+						continue
 					}
-				}
-				for _, p := range progs {
-					p := p
-					caseNo, _ := c.Begin()
-					c.Exec()
-					c.Validate()
-					c.Edge(int64(2 * len(p.Sites)))
-					c.StateN(1)
-					c.NontrivialN(1)
-					f, mustErr := checkBind(p)
-					switch {
-					case f != nil:
-						report(caseNo, Input{Bind: &p}, f)
-					case mustErr:
-						c.Outcome("unresolvable-reported")
-					default:
-						c.Outcome("bound-as-reference")
-						if i%211 == 5 {
-							b, _ := json.Marshal(Input{Bind: &p})
-							c.Sample(string(b))
+					// does every site resolve?
+					all := BindInput{Decl: decl, Spelling: sp, Sites: sites, SubAlias: alias}
+					w, _ := bindWorld(all)
+					w.Build()
+					var progs []BindInput
+					if len(w.MustError) == 0 {
+						progs = []BindInput{all}
+					} else {
+						for _, s := range sites {
+							progs = append(progs, BindInput{Decl: decl, Spelling: sp, Sites: []string{s}, SubAlias: alias})
+						}
+					}
+					for _, p := range progs {
+						p := p
+						caseNo, run := c.Begin()
+						if c.Skip(caseNo, run, Input{Bind: &p}) {
+							continue
+						}
+						c.Exec()
+						c.Validate()
+						c.Edge(int64(2 * len(p.Sites)))
+						c.StateN(1)
+						c.NontrivialN(1)
+						f, mustErr := checkBind(p)
+						switch {
+						case f != nil:
+							report(caseNo, Input{Bind: &p}, f)
+						case mustErr:
+							c.Outcome("unresolvable-reported")
+						default:
+							c.Outcome("bound-as-reference")
+							if i%211 == 5 {
+								b, _ := json.Marshal(Input{Bind: &p})
+								c.Sample(string(b))
+							}
 						}
 					}
 				}
@@ -532,7 +546,10 @@ func run(c *core.Ctx) {
 					return
 				}
 				in := ChainInput{Code: cc, Extra: ex, Kind: kind}
-				caseNo, _ := c.Begin()
+				caseNo, run := c.Begin()
+				if c.Skip(caseNo, run, Input{Chain: &in}) {
+					continue
+				}
 				c.Exec()
 				c.Validate()
 				c.Edge(5)
@@ -556,7 +573,10 @@ func run(c *core.Ctx) {
 					continue
 				}
 				in := ErrInput{Body: body, Sub: sub}
-				caseNo, _ := c.Begin()
+				caseNo, run := c.Begin()
+				if c.Skip(caseNo, run, Input{Err: &in}) {
+					continue
+				}
 				c.Exec()
 				c.Validate()
 				c.Edge(2)
